@@ -239,7 +239,7 @@ def rule_r2(rep, program: Program):
 
 
 def rule_r3(rep, program: Program):
-    r = rep.rule("R3", "initial step-size search: threshold log 2; halve when too big (and on IntegratorError), double otherwise; halving and doubling reciprocal", floor=4)
+    r = rep.rule("R3", "initial step-size search: threshold log 2; halve when too big (and on IntegratorError), double otherwise; halving and doubling reciprocal", floor=14)
     f = program.method("DualAveragingStepSizeAdapter", "_find_and_set_init_step_size")
     thr = [n for n in ast.walk(f.node) if isinstance(n, ast.Assign) and norm(n.targets[0]) == "delta_h_threshold"]
     r.inst({"threshold": norm(thr[0].value) if thr else None})
@@ -273,7 +273,110 @@ def rule_r3(rep, program: Program):
             r.violate(PROP, f"{f.qualname}:error-handler", "an integrator failure during the initial search does not shrink the step size / mark it as too big", node=h, file=f.file)
     init = [n for n in ast.walk(f.node) if isinstance(n, ast.Assign) and norm(n.targets[0]) == "integrator.step_size"]
     r.inst({"initial": norm(init[0].value) if init else None})
+    _search_transition_table(r, f)
     return r
+
+
+class _Ret(Exception):
+    pass
+
+
+def _search_transition_table(r, f):
+    """Abstract execution of one iteration of the search loop for every combination of
+    (first iteration?, |dH| is NaN / <= log 2 / > log 2, direction flag before) and comparison of the
+    action taken (return / halve / double, new flag) with the bracketing search it documents."""
+    loops = [n for n in ast.walk(f.node) if isinstance(n, ast.For)]
+    trys = [t for lp in loops for t in lp.body if isinstance(t, ast.Try)]
+    if len(trys) != 1:
+        raise AnalysisError(f"{f.qualname}: search loop with one try block not found")
+    loopvar = norm(loops[0].target)
+    body = trys[0].body
+    dh = None
+    for st in body:
+        if isinstance(st, ast.Assign) and isinstance(st.value, ast.Call) and norm(st.value.func) in ("abs", "np.abs", "fabs", "math.fabs"):
+            dh = norm(st.targets[0])
+    if dh is None:
+        raise AnalysisError(f"{f.qualname}: absolute energy change not found")
+    thr_names = {"delta_h_threshold", "log(2)", "LOG_2"}
+
+    def ev(e, env):
+        if isinstance(e, ast.Constant) and isinstance(e.value, bool):
+            return e.value
+        if isinstance(e, ast.Name) and e.id == "step_size_too_big":
+            if env["flag"] is None:
+                raise AnalysisError(f"{f.qualname}: direction flag read before it is set")
+            return env["flag"]
+        if isinstance(e, ast.UnaryOp) and isinstance(e.op, ast.Not):
+            return not ev(e.operand, env)
+        if isinstance(e, ast.BoolOp):
+            vals = [ev(v, env) for v in e.values]
+            return all(vals) if isinstance(e.op, ast.And) else any(vals)
+        if isinstance(e, ast.Call) and norm(e.func) in ("np.isnan", "isnan", "math.isnan") and norm(e.args[0]) == dh:
+            return env["kind"] == "nan"
+        if isinstance(e, ast.Call) and norm(e.func) in ("np.isfinite", "isfinite", "math.isfinite") and norm(e.args[0]) == dh:
+            return env["kind"] != "nan"
+        if isinstance(e, ast.Compare) and len(e.ops) == 1:
+            l, rr, op = norm(e.left), norm(e.comparators[0]), e.ops[0]
+            if l == loopvar and rr == "0" and isinstance(op, (ast.Eq, ast.NotEq)):
+                return env["first"] if isinstance(op, ast.Eq) else not env["first"]
+            if l == loopvar and rr == "0" and isinstance(op, ast.Gt):
+                return not env["first"]
+            if l == dh and rr in thr_names or rr == dh and l in thr_names:
+                if env["kind"] == "nan":
+                    return False  # every ordered comparison with NaN is false
+                big = env["kind"] == "big"
+                if rr == dh:  # threshold on the left: flip
+                    op = {ast.Gt: ast.Lt, ast.GtE: ast.LtE, ast.Lt: ast.Gt, ast.LtE: ast.GtE}[type(op)]()
+                return big if isinstance(op, (ast.Gt, ast.GtE)) else not big
+        raise AnalysisError(f"{f.qualname}: condition outside the search grammar: {norm(e)[:60]}")
+
+    def run(stmts, env):
+        for st in stmts:
+            if isinstance(st, ast.Assign) and norm(st.targets[0]) == "step_size_too_big":
+                env["flag"] = ev(st.value, env)
+            elif isinstance(st, ast.Assign):
+                continue
+            elif isinstance(st, ast.If):
+                run(st.body if ev(st.test, env) else st.orelse, env)
+            elif isinstance(st, ast.Return):
+                env["action"] = "return"
+                raise _Ret
+            elif isinstance(st, ast.AugAssign) and norm(st.target) == "integrator.step_size":
+                v = eval_const(st.value)
+                fac = (Rat.const(1) / v if isinstance(st.op, ast.Div) else v).const_value() if v is not None else None
+                env["action"] = "halve" if fac is not None and fac < 1 else "double"
+            elif isinstance(st, ast.Expr):
+                continue
+            else:
+                raise AnalysisError(f"{f.qualname}: statement outside the search grammar: {norm(st)[:50]}")
+
+    n_cases = 0
+    for first in (True, False):
+        for kind in ("nan", "small", "big"):
+            for prev in ((None,) if first else (True, False)):
+                env = {"first": first, "kind": kind, "flag": prev, "action": None}
+                try:
+                    run(body, env)
+                except _Ret:
+                    pass
+                # required behaviour of a bracketing search with threshold log 2
+                if kind == "nan":
+                    want = ("halve", True)
+                elif first:
+                    want = ("halve", True) if kind == "big" else ("double", False)
+                elif prev:
+                    want = ("halve", True) if kind == "big" else ("return", True)
+                else:
+                    want = ("return", False) if kind == "big" else ("double", False)
+                got = (env["action"], env["flag"])
+                n_cases += 1
+                ok = got[0] == want[0] and (got[0] == "return" or got[1] == want[1])
+                r.inst({"first": first, "|dH|": {"nan": "NaN", "small": "<= log 2", "big": "> log 2"}[kind], "flag before": prev, "action": got[0], "flag after": got[1]})
+                if not ok:
+                    desc = {"nan": "is NaN", "small": "is at most log 2", "big": "exceeds log 2"}[kind]
+                    phase = "on the first iteration" if first else ("while halving" if prev else "while doubling")
+                    r.violate(PROP, f"{f.qualname}:search:{'first' if first else ('halving' if prev else 'doubling')}:{kind}:{got[0]}", f"initial step-size search: when the one-step energy change {desc} {phase}, the loop {got[0] or 'does nothing'}s (too-big flag {got[1]}) where a bracketing search for the log 2 crossing must {want[0]} (flag {want[1]}): the returned step size is not at the crossing, or the search runs away", node=trys[0], file=f.file)
+    return n_cases
 
 
 class _InitExec:
